@@ -15,6 +15,11 @@ RULE = (
     "datadesc(name) == description of field K; for indexed names att2idx(name) == I (int, or tuple for nested groups) "
     "and att2name(name) == K. distinct = blake2b(name); non-trivial = the name is indexed or is not a plain 'DFnnn' key"
 )
+RULE += (
+    ' Also: the names the parser ACTUALLY produced are aligned by position with the encoded fields and the'
+    ' helpers applied to them; every other message uses the package-level names pyrtcm.datadesc / att2idx'
+    ' / att2name.'
+)
 ASSUMPTIONS = ["count attributes NSat/NSig/NCell do not stem from a data field and are not covered by the statement"]
 GATES = ["names_checked", "indexed_names", "nested_names", "three_digit_names", "idf_names", "derived_names",
          "messages_aligned_by_position"]
